@@ -159,9 +159,11 @@ pub fn run_l2(prog: &Prog, w: u64, which: Which) -> Result<L2Run, Outcome> {
                     let Ok(l) = model.layout(mi, ii) else {
                         return Err(Outcome::discard("model-stuck"));
                     };
-                    if l.reject.is_some() {
+                    if l.reject.is_some() && which == Which::Compile {
                         return Err(Outcome::discard("model-rejects-but-pyxis-accepts"));
                     }
+                    // for C01/C02 the statement is conditional on acceptance only: a description pyxis accepts is
+                    // judged against the offsets it states even when the reference model would have rejected it
                     match which {
                         Which::Offsets => {
                             for (f, fl) in td.fields.iter().zip(l.fields.iter()) {
@@ -234,6 +236,99 @@ pub fn diag_summary(errors: &[Diag]) -> String {
     s
 }
 
+/// Perturb an accepted layout program: most results are rejected by pyxis (discarded), the ones it still
+/// accepts are judged like any other accepted description.
+pub fn perturb_layout(t: &mut Tape, prog: &mut Prog) -> String {
+    let mut sites: Vec<(usize, usize)> = vec![];
+    for (mi, m) in prog.mods.iter().enumerate() {
+        for (ii, it) in m.items.iter().enumerate() {
+            if matches!(it, Item::Type(_)) {
+                sites.push((mi, ii));
+            }
+        }
+    }
+    if sites.is_empty() {
+        return "none".into();
+    }
+    let (mi, ii) = sites[t.below(sites.len() as u64) as usize];
+    let kind = t.below(9);
+    if kind == 8 {
+        // a by-value member of a zero-sized, aligned type somewhere in the middle
+        let zname = format!("Zs{}", t.below(1000));
+        let zt = TypeDef {
+            vis: true,
+            name: zname.clone(),
+            ..Default::default()
+        };
+        prog.mods[mi].items.push(Item::Type(zt));
+        let Item::Type(td) = &mut prog.mods[mi].items[ii] else { unreachable!() };
+        let pos = t.below(td.fields.len() as u64 + 1) as usize;
+        let mut f = Field::new(&format!("zs{}", t.below(1000)), Ty::Named(zname));
+        f.base = t.chance(1, 4);
+        td.fields.insert(pos, f);
+        return "insert-zero-sized-member".into();
+    }
+    let Item::Type(td) = &mut prog.mods[mi].items[ii] else { unreachable!() };
+    match kind {
+        0 => {
+            td.align = None;
+            "drop-align".into()
+        }
+        1 => {
+            td.align = Some(Num::d(1 << t.below(6)));
+            "change-align".into()
+        }
+        2 => {
+            td.size = None;
+            "drop-size".into()
+        }
+        3 | 4 => {
+            let with_addr: Vec<usize> = (0..td.fields.len()).filter(|k| td.fields[*k].addr.is_some()).collect();
+            if with_addr.is_empty() {
+                return "none".into();
+            }
+            let k = with_addr[t.below(with_addr.len() as u64) as usize];
+            if kind == 3 {
+                let a = td.fields[k].addr.as_ref().unwrap().v;
+                let d = 1 + t.below(8) as i128;
+                td.fields[k].addr = Some(Num::d(if t.chance(1, 2) { a + d } else { (a - d).max(0) }));
+                "shift-address".into()
+            } else {
+                td.fields[k].addr = None;
+                "drop-address".into()
+            }
+        }
+        5 => {
+            if let Some(k) = td.fields.iter().position(|f| f.name == "_" && matches!(f.ty, Ty::Unk(_))) {
+                td.fields.remove(k);
+                "drop-gap".into()
+            } else {
+                "none".into()
+            }
+        }
+        6 => {
+            td.packed = !td.packed;
+            if td.packed {
+                td.align = None;
+            }
+            "toggle-packed".into()
+        }
+        _ => {
+            if td.fields.len() >= 2 {
+                let i = t.below(td.fields.len() as u64) as usize;
+                let j = t.below(td.fields.len() as u64) as usize;
+                let (a, b) = (td.fields[i].addr.clone(), td.fields[j].addr.clone());
+                td.fields.swap(i, j);
+                td.fields[i].addr = a;
+                td.fields[j].addr = b;
+                "swap-fields".into()
+            } else {
+                "none".into()
+            }
+        }
+    }
+}
+
 pub fn gen_l2_case(t: &mut Tape, rich: bool) -> Case {
     let w = if t.chance(1, 2) { 8 } else { 4 };
     let mut cfg = if rich { GenCfg::rich(w) } else { GenCfg::layout_only(w) };
@@ -242,7 +337,13 @@ pub fn gen_l2_case(t: &mut Tape, rich: bool) -> Case {
     if t.chance(1, 6) {
         cfg.max_gap = 1 << 12;
     }
-    let (prog, _, _) = gen_prog(t, cfg);
+    let (mut prog, _, _) = gen_prog(t, cfg);
+    if !rich && t.chance(1, 3) {
+        let n = 1 + t.below(2);
+        for _ in 0..n {
+            perturb_layout(t, &mut prog);
+        }
+    }
     Case { prog, w }
 }
 
